@@ -424,7 +424,11 @@ pub fn gen_c07(r: &mut Rng, tier: Tier) -> Case {
         let lang = if r.chance(2, 3) { lang.clone() } else { r.pick(&LANGS).to_string() };
         let mode = if r.chance(1, 2) { Mode::File } else { Mode::Folder };
         let omit = r.chance(1, 25);
-        let config = gen::default_config(r, &lang, omit);
+        let mut config = gen::default_config(r, &lang, omit);
+        if r.chance(1, 15) {
+            // one of the named configuration edge cases
+            config = r.pick(gen::CONFIG_EDGES).1.to_string();
+        }
         let mut inv = base_inv(&lang, mode, config);
         inv.role = "run".into();
         inv.knobs = random_knobs(r, false);
@@ -913,7 +917,7 @@ pub fn gen_c17(r: &mut Rng, tier: Tier) -> Case {
     }
     let versions: Vec<Tree> = worlds.iter().map(|w| w.render()).collect();
     let config = gen::default_config(r, &lang, false);
-    let fault_case = r.chance(3, 10);
+    let fault_case = r.chance(4, 10);
     let nops = r.range(2, 6) as usize;
     let mut ops: Vec<Inv> = vec![];
     for i in 0..nops {
@@ -928,7 +932,7 @@ pub fn gen_c17(r: &mut Rng, tier: Tier) -> Case {
         inv.knobs = random_knobs(r, true);
         inv.sched = random_sched(r);
         inv.hash_seed = r.next();
-        if fault_case && r.chance(1, 2) {
+        if fault_case && r.chance(2, 3) {
             let f = match r.below(4) {
                 0 => Fault::Write { nth: r.below(4) as u32, kind: r.pick(&[IoKind::Enospc, IoKind::Eio, IoKind::Eacces]).clone() },
                 1 => Fault::ShortWrite { nth: r.below(4) as u32, keep_permille: r.below(1000) as u32, kind: IoKind::Enospc },
@@ -1080,6 +1084,15 @@ pub fn evaluate(case: &Case, base: &Path, name: &str) -> EvalResult {
     };
     res.stats.cases = 1;
     *res.stats.ops_per_case.entry(case.ops.len()).or_insert(0) += 1;
+    if !case.preseed.is_empty() {
+        *res.stats.fired.entry("preexisting_output_files(cases)".to_string()).or_insert(0) += 1;
+    }
+    if case.versions.iter().any(|t| t.iter().any(|f| f.kind == FileKind::SymlinkToFile)) {
+        *res.stats.fired.entry("symlinked_source_file(cases)".to_string()).or_insert(0) += 1;
+    }
+    if case.notes.iter().any(|n| n == "config_varies") {
+        *res.stats.fired.entry("config_changes_between_runs(cases)".to_string()).or_insert(0) += 1;
+    }
     match case.property.as_str() {
         "C06" => eval_c06(case, &mut sc, &mut res),
         "C07" => eval_c07(case, &mut sc, &mut res),
